@@ -26,6 +26,7 @@ type Scenario struct {
 	// OnOutcome may turn an outcome into failures or accept it. Default: deadlock
 	// and panic are failures; step-limit only makes the result non-exhaustive.
 	OnOutcome     func(o *Outcome) []Failure
+	NoCache       bool // disable happens-before state caching
 	MaxExecutions int64
 	Budget        time.Duration // wall-clock budget; hitting it => Truncated (never a violation)
 }
@@ -44,7 +45,9 @@ type Result struct {
 	Bounds       string                `json:"bounds"`
 	Executions   int64                 `json:"executions"`
 	Steps        int64                 `json:"steps"`
-	Nodes        int64                 `json:"nodes"` // distinct choice-sequence prefixes visited
+	Nodes        int64                 `json:"nodes"`  // distinct choice-sequence prefixes visited
+	States       int64                 `json:"states"` // distinct happens-before fingerprints at choice points
+	Pruned       int64                 `json:"pruned"` // subtrees skipped because (state, transition) was already explored
 	MaxDepth     int                   `json:"max_depth"`
 	Truncated    bool                  `json:"truncated"`
 	StepLimited  int64                 `json:"step_limited"`
@@ -74,6 +77,11 @@ func (sc *Scenario) runOnce(prefix []int, log bool) *Outcome {
 	}
 	cfg := sc.Cfg
 	cfg.LogEvents = log
+	if log { // confirmation / determinism replays run to completion, unpruned
+		saved := pruneHook
+		pruneHook = nil
+		defer func() { pruneHook = saved }()
+	}
 	return Run(cfg, prefix, sc.Body)
 }
 
@@ -114,6 +122,44 @@ func Explore(sc *Scenario, shard, nshards int) *Result {
 		res.Infra = append(res.Infra, "nondeterministic default execution: "+firstDiff(a.EventLog, b.EventLog))
 		return res
 	}
+	// state cache: (fingerprint, alternative) -> best remaining budget it was explored with
+	type ckey struct {
+		a, b, alt uint64
+	}
+	cache := map[ckey][3]int{}
+	states := map[[2]uint64]struct{}{}
+	rem := func(c [4]int) [3]int {
+		f := func(b, used int) int {
+			if b < 0 {
+				return 1 << 30
+			}
+			return b - used
+		}
+		return [3]int{f(sc.Bounds.P, c[CostP]), f(sc.Bounds.D, c[CostD]), f(sc.Bounds.F, c[CostF])}
+	}
+	// visit reports whether (state, alt) was already explored with at least this budget; records it otherwise
+	visit := func(fp [2]uint64, alt uint64, r [3]int) bool {
+		k := ckey{fp[0], fp[1], alt}
+		states[fp] = struct{}{}
+		if old, ok := cache[k]; ok && old[0] >= r[0] && old[1] >= r[1] && old[2] >= r[2] {
+			return true
+		}
+		if old, ok := cache[k]; !ok || (r[0] >= old[0] && r[1] >= old[1] && r[2] >= old[2]) {
+			cache[k] = r
+		}
+		return false
+	}
+	var curCost [4]int
+	if !sc.NoCache {
+		pruneHook = func(cp *ChoicePoint, pos int) bool {
+			if visit(cp.FP, cp.AltID[0], rem(curCost)) {
+				res.Pruned++
+				return true
+			}
+			return false
+		}
+		defer func() { pruneHook = nil }()
+	}
 	stack := []work{{}}
 	first := true
 	for len(stack) > 0 {
@@ -123,6 +169,7 @@ func Explore(sc *Scenario, shard, nshards int) *Result {
 			res.Truncated = true
 			break
 		}
+		curCost = w.cost
 		o := sc.runOnce(w.prefix, false)
 		isRoot := first
 		first = false
@@ -137,10 +184,12 @@ func Explore(sc *Scenario, shard, nshards int) *Result {
 			if o.Kind == StepLimit {
 				res.StepLimited++
 			}
-			k, txt := sig(o)
-			res.Outcomes[k]++
-			if _, ok := res.OutcomeText[k]; !ok && len(res.OutcomeText) < 64 {
-				res.OutcomeText[k] = txt
+			if o.Kind != Pruned {
+				k, txt := sig(o)
+				res.Outcomes[k]++
+				if _, ok := res.OutcomeText[k]; !ok && len(res.OutcomeText) < 64 {
+					res.OutcomeText[k] = txt
+				}
 			}
 			if len(res.SampleTraces) < 4 {
 				res.SampleTraces = append(res.SampleTraces, taken(o.Trace))
@@ -187,6 +236,10 @@ func Explore(sc *Scenario, shard, nshards int) *Result {
 				if !within(c, sc.Bounds) {
 					continue
 				}
+				if !sc.NoCache && cp.AltID != nil && visit(cp.FP, cp.AltID[alt], rem(c)) {
+					res.Pruned++
+					continue
+				}
 				p := make([]int, i+1)
 				for j := 0; j < i; j++ {
 					p[j] = o.Trace[j].Taken
@@ -210,6 +263,7 @@ func Explore(sc *Scenario, shard, nshards int) *Result {
 			stack = append(stack, kids[i])
 		}
 	}
+	res.States = int64(len(states))
 	return res
 }
 
@@ -240,6 +294,8 @@ func (r *Result) Merge(o *Result) {
 	r.Executions += o.Executions
 	r.Steps += o.Steps
 	r.Nodes += o.Nodes
+	r.States += o.States
+	r.Pruned += o.Pruned
 	r.StepLimited += o.StepLimited
 	if o.MaxDepth > r.MaxDepth {
 		r.MaxDepth = o.MaxDepth
